@@ -91,10 +91,12 @@ PROPS = {
         residual=("Of the parser, the byte-level helpers (is_digit, is_hex_digit, parse_decimal, optional_whitespace, check_for_close_paren, parse_repeat, flag, update_flag, is_repeatable) and the recursive descent itself "
                   "(Expr::parse_tree, Parser::{new, parse, parse_re, parse_branch, parse_piece, parse_atom, parse_group, parse_flags, parse_conditional}) are under contract: no panic (indexing, slicing on character boundaries, "
                   "curr_group += 1 cannot overflow), positions inside the pattern and never moving backwards, error positions <= length, the recursion terminates (decreases MAX_RECURSION - depth, rank) and so does every loop, the tree is well-shaped. "
-                  "parse_escape, parse_class, the named / numbered reference parsers, parse_id and regex-automata's builder are NOT decided by proof: outside Verus' dialect, assumed with the common sub-parser contract (T-parse-below), "
+                  "Also under contract: parse_escape (the whole escape table: a trailing backslash is an error, slices on boundaries, the \\p{..} scan terminates inside the pattern; outside a class \\A \\z \\b \\B \\< \\> \\K \\G give the documented node whatever the flags), "
+                  "parse_hex (at most 8 digits reach the unwrap of the hex value), parse_class (no index past the pattern, the nesting counter neither overflows nor underflows, the scan terminates), parse_numbered_backref (the bit-set guard), make_literal. "
+                  "parse_named_backref, parse_id and regex-automata's builder are NOT decided by proof: outside Verus' dialect, assumed with the common sub-parser contract (T-parse-below), "
                   "exercised only by the bounded family parse. The code emitter (U-COMPILE / U-EMITWF: no overflow / bounds / panic, push_literal only on literals, build never on an empty builder) and the construction glue "
                   "(U-NEW: Regex::new_options composes parse -> wrap -> analyze -> compile / wrap, lemma_info_ok_cinfo, lemma_info_ok_gt) are decided by proof."),
-        assumptions=[T_VSTD, T_ARITH, T_EXTRACT, "T-parse-below: parse_escape / parse_class / the reference parsers / parse_id return positions in bounds on boundaries, well-shaped trees, error positions inside the pattern, the group counter behind the position; T-parser-shape: < 2^61 groups", "T-position / T-startswith / T-fromstr / T-stringfrom shims in U-PARSEFN",
+        assumptions=[T_VSTD, T_ARITH, T_EXTRACT, "T-parse-below: parse_named_backref / parse_id (and the name table) return positions in bounds on boundaries, well-shaped trees, error positions inside the pattern, the group counter behind the position; T-parser-shape: < 2^61 groups", "T-position / T-startswith / T-fromstr (usize and u32 from_str_radix, char::from_u32) / T-stringfrom / T-bitset (insert) / T-ascii (is_ascii_alphabetic) / escape_into / format! shims in U-PARSEFN; the closures handed to parse_numbered_backref are passed by value instead of by reference (listed bodysubs)",
                      "termination of the recursive code emitter is proved in U-EMITWF (decreases *info, rank; through the closures too); U-COMPILE verifies the same functions under its shape contract with exec_allows_no_decreases_clause"],
         bounded_families=['analyze', 'parse'],
     ),
